@@ -33,7 +33,7 @@ pub fn run(a: &Args) -> i32 {
     let mut rng = Rng::new(a.seed);
     let n_cases = if rep.thorough() { 250 } else { 40 };
     let ok = OpKnobs { max_depth: 2, ..OpKnobs::default() };
-    let mut u = build_universe(&mut rep, &mut rng, "c10", n_cases, &SchemaKnobs::default(), &ok, default_opts);
+    let mut u = build_universe(&mut rep, &mut rng, "c10", n_cases, &SchemaKnobs { enum_case_twins: true, ..SchemaKnobs::default() }, &ok, default_opts);
     let exe = match u.build.exe.clone() {
         Some(e) => e,
         None => {
